@@ -256,6 +256,35 @@ def _gen(stratum, rng, tier, auto):
             jobs.append(("bfs_edges", dict(kw)))
             jobs.append(("dfs_edges", dict(kw)))
         return _case("trav", n, [(u, v, 1) for u, v in pairs], src, jobs, False, auto)
+    if stratum == "mst" and rng.random() < 0.35:
+        # merge plan: distinct increasing weights dictate which components meet when (equal sizes preferred: maximal
+        # union-find ranks); the joining edge touches arbitrary members in either orientation, heavier cycle-closing
+        # edges must be refused - this is what drives the union-find of either back-end through its rare branches
+        n = rng.randint(4, 16)
+        comps = [[i] for i in range(n)]
+        rng.shuffle(comps)
+        edges, step = [], 1
+        stop_at = 1 if rng.random() < 0.8 else 2
+        while len(comps) > stop_at:
+            comps.sort(key=len)
+            if rng.random() < 0.7:
+                i = rng.randrange(len(comps) - 1)
+                c1, c2 = comps[i], comps[i + 1]
+            else:
+                c1, c2 = rng.sample(comps, 2)
+            a = c1[-1] if rng.random() < 0.5 else rng.choice(c1)
+            b = c2[-1] if rng.random() < 0.5 else rng.choice(c2)
+            edges.append((a, b, step) if rng.random() < 0.5 else (b, a, step))
+            merged = c1 + c2
+            comps = [c for c in comps if c is not c1 and c is not c2] + [merged]
+            step += 1
+            if len(merged) >= 3 and rng.random() < 0.5:
+                x, y = rng.sample(merged, 2)
+                edges.append((x, y, step))
+                step += 1
+        rng.shuffle(edges)
+        jobs = [("kruskal", {}), ("kruskal", {"allow_forest": True}), ("kruskal", {"allow_forest": False})]
+        return _case("mst", n, edges, 0, jobs, False, auto)
     if stratum == "mst":
         n = rng.randint(1, 8)
         pairs = []
